@@ -15,6 +15,7 @@ import ASV.Proofs.ModulesChain
 import ASV.Proofs.ModulesLayoutIdx
 import ASV.Proofs.ModulesLayoutFacts
 import ASV.Proofs.ModulesLine
+import ASV.Proofs.ModulesHmm
 namespace ASV.C14
 open ASV ASV.Modules ASV.Modules.T
 
@@ -72,6 +73,25 @@ theorem build_partition_eq (ds : List Domain) (name : String) (h : InputOK ds na
   obtain ⟨ms', hb', _, hflat, _⟩ := build_spec ds name h.1 h.2
   rw [hb] at hb'; injection hb' with hb'; subst hb'
   rw [hflat]; exact map_domain_filter name _
+
+/-- … "in query order, ties in input order" pinned down independently of the sort used by the
+    model: the sorted list is a permutation of the input, non-decreasing in query start, and any
+    sub-sequence of the input that is already in order — in particular two domains with the same
+    start — keeps its order (stability, as Python's `sorted`) -/
+theorem sort_is_stable_sort (ds : List Domain) :
+    (sortDomains ds).Perm ds
+    ∧ (sortDomains ds).Pairwise (fun a b => a.start ≤ b.start)
+    ∧ ∀ ys : List Domain, ys.Pairwise (fun a b => a.start ≤ b.start) → ys.Sublist ds →
+        ys.Sublist (sortDomains ds) := by
+  refine ⟨List.mergeSort_perm ds _, ?_, ?_⟩
+  · exact (sortDomains_sorted ds).imp (by intro a b h; simpa using h)
+  · intro ys hp hs
+    unfold sortDomains
+    apply List.sublist_mergeSort
+    · intro a b c h1 h2; simp at h1 h2 ⊢; omega
+    · intro a b; simp; omega
+    · exact hp.imp (by intro a b h; simpa using h)
+    · exact hs
 
 /-- 3. every module respects the documented layout -/
 theorem build_layout (ds : List Domain) (name : String) (h : InputOK ds name) (ms : List Module)
@@ -243,6 +263,28 @@ theorem chain_reports_assembly_line (genes : List Gene) (h : ∀ g ∈ genes, In
   rw [List.map_map]
   exact hok
 
+/-! ### the HMMResult under a Component (hmmscan_refinement.py): nested internal hits, the
+    `detailed_names` chain the subtypes are read from, `to_json` / `from_json` -/
+
+/-- 9a. an HMMResult that could be constructed (every internal hit overlaps its parent, at every
+    depth) is rebuilt identically from its JSON form — so a reloaded Component has the same label,
+    the same subtype chain and the same coordinates -/
+theorem hmm_reload_identity (h : Hmm) (hw : h.WF = true) :
+    Hmm.fromJson h.toJson = .ok h ∧ (∀ locus, (Hmm.fromJson h.toJson).map (fun h' => mkComp locus h'.domain)
+                                          = .ok (mkComp locus h.domain)) := by
+  have := Hmm.roundtrip h hw
+  exact ⟨this, fun locus => by rw [this]; rfl⟩
+
+/-- 9b. the hypothesis of 9a is exactly "was constructed": building a tree through the real
+    constructor (children first) succeeds iff it is well formed, returns it unchanged, and the
+    only failure is the ValueError of a non-overlapping internal hit; whatever `from_json` returns
+    is well formed -/
+theorem hmm_constructed_iff_wf (raw : Hmm) :
+    (raw.WF = true → Hmm.validate raw = .ok raw)
+    ∧ (∀ h, Hmm.validate raw = .ok h → h = raw ∧ h.WF = true)
+    ∧ (∀ j h, Hmm.fromJson j = .ok h → h.WF = true) :=
+  ⟨Hmm.validate_wf raw, Hmm.validate_ok raw, Hmm.fromJson_wf⟩
+
 /-- the layout predicate read with indices: position `i` is checked against the components
     before it and after it -/
 theorem layout_by_index (cs : List Comp) : Spec.layout cs = Spec.layoutIdx cs :=
@@ -370,5 +412,19 @@ example : Spec.isInfixB ([cl "PKS_KS" 0 "left", cl "PKS_AT" 5 "left"] ++ [cl "PP
           ∧ (Spec.assemblyLine [(true, [cl "PKS_KS" 0 "left", cl "PKS_AT" 5 "left"] ++ [cl "PP-binding" 0 "right"]), (true, [])]).isSublist
             (Spec.assemblyLine [(true, [cl "PKS_KS" 0 "left", cl "PKS_AT" 5 "left"]), (true, [cl "PP-binding" 0 "right"])]) = false := by
   decide
+
+
+/-! ### non-vacuity for the HMMResult theorems -/
+
+/-- a KS with the subtype chain Trans-AT-KS → KS_clade_7; a second internal hit at the deeper level
+    stops the chain -/
+def ksHit : Hmm := .mk "PKS_KS" 0 100 0 50 [.mk "Trans-AT-KS" 0 100 0 10 [.mk "KS_clade_7" 5 90 0 10 []]]
+example : ksHit.WF = true ∧ ksHit.detailedNames = ["PKS_KS", "Trans-AT-KS", "KS_clade_7"]
+    ∧ ksHit.subtypes = ["Trans-AT-KS", "KS_clade_7"] := by decide
+example : (Hmm.mk "PKS_KS" 0 100 0 50 [.mk "Trans-AT-KS" 0 100 0 10 [.mk "a" 5 90 0 10 [], .mk "b" 5 90 0 10 []]]).detailedNames
+    = ["PKS_KS", "Trans-AT-KS"] := by decide
+/-- an internal hit that only touches its parent is refused -/
+example : (match Hmm.validate (.mk "PKS_KS" 0 100 0 50 [.mk "x" 100 120 0 10 []]) with
+           | .error .valueError => true | _ => false) = true := by decide
 
 end ASV.C14
